@@ -145,6 +145,30 @@ func build(ns []int, pat string, withMeta bool) ([]byte, [][]expectEv) {
 				t.Add(0, off)
 				exp[tr] = append(exp[tr], expectEv{tr, on, tick, false, true}, expectEv{tr, off, tick, false, true})
 			}
+			if withMeta {
+				// one meta event of every type byte in turn (assigned or not, with a
+				// payload that has the usual length of its kind where there is one),
+				// a sysex and an escape: none of them is ever sent
+				typ := byte((i*7 + tr*3) % 128)
+				if typ != 0x2F && typ != 0x51 {
+					pl := []byte{byte(i), 0x01}
+					switch typ {
+					case 0x00, 0x59:
+						pl = []byte{0x00, 0x01}
+					case 0x20, 0x21:
+						pl = []byte{0x01}
+					case 0x54:
+						pl = []byte{1, 2, 3, 4, 5}
+					case 0x58:
+						pl = []byte{4, 2, 24, 8}
+					}
+					t.Add(0, smf.MetaUndefined(typ, pl))
+				}
+				if i%5 == 2 {
+					t.Add(0, smf.Message([]byte{0xF0, 0x7E, 0x7F, 0x09, 0x01, 0xF7}))
+					t.Add(0, smf.Message([]byte{0xF7, 0xF8, 0x90, 0x40}))
+				}
+			}
 			if withMeta && i%3 == 1 {
 				t.Add(0, smf.MetaText("x"))
 				if tr == 0 && i == 4 {
